@@ -295,7 +295,7 @@ func obs(r *rand.Rand, g *keyGen, t *track, full bool, ops *[][]string) {
 		*ops = append(*ops, []string{"r", "v" + i64(t.first()-1), "size"})
 	}
 	bookkeeping(r, g, t, ops)
-	*ops = append(*ops, []string{"audit", "nodes"}, []string{"audit", "phys"}, []string{"audit", "fast"}, []string{"audit", "raw"})
+	*ops = append(*ops, []string{"audit", "nodes"}, []string{"audit", "phys"}, []string{"audit", "fast"}, []string{"audit", "raw"}, []string{"audit", "cache"})
 }
 
 // genM1 generates one MutableTree history.
